@@ -154,13 +154,14 @@ def theorems_of(props_file: Path) -> list[str]:
     return names
 
 
-def audit_axioms(pid: str, props_module: str, theorems: list[str]) -> dict[str, list[str]]:
+def audit_axioms(pid: str, props_modules, theorems: list[str]) -> dict[str, list[str]]:
     """Runs `#print axioms` on every theorem; returns name -> axioms."""
     audit_dir = LEAN_DIR / "Audit"
     audit_dir.mkdir(exist_ok=True)
     f = audit_dir / f"{pid}.lean"
     f.write_text(
-        f"import {props_module}\n" + "".join(f"#print axioms {t}\n" for t in theorems)
+        "".join(f"import {m}\n" for m in ([props_modules] if isinstance(props_modules, str) else props_modules))
+        + "".join(f"#print axioms {t}\n" for t in theorems)
     )
     lock = _lock()
     try:
